@@ -141,6 +141,7 @@ func (m *FloodSub) Execute(ctx context.Context) error {
 		}
 		m.incSessions = nil
 		m.mtx.Unlock() // intentional mtx hold-break
+		simhook.Yield("floodsub/hold-break", "")
 		initSet = nil
 
 		var xmitPeers []*streamHandler
